@@ -536,16 +536,28 @@ def _hodo_curve_shapes(tier):
                 out.append(dict(p=p, mult=list(mult)))
     # shapes that keep their knot vector as given (normalize_kv=False, symbolic range): the hodograph lives on the same domain
     out += [dict(p=2, mult=[1], normalized=False), dict(p=3, mult=[1, 1], normalized=False)]
+    # an unclamped knot vector on [0, 1] of a shape built with the default options (normalize_kv=True)
+    out += [dict(p=2, mult=[1], unclamped01=True), dict(p=3, mult=[], unclamped01=True)]
     return out
 
 
 @scenario('C02', fns=['operations.derivative_curve', 'helpers.curve_deriv_cpts', 'BSpline.Curve.evaluate_single',
                       'BSpline.Curve.derivatives'],
           quick=lambda: _hodo_curve_shapes('quick'), thorough=lambda: _hodo_curve_shapes('thorough'))
-def hodograph_curve(ctx, p, mult, normalized=True):
+def hodograph_curve(ctx, p, mult, normalized=True, unclamped01=False):
     """requires non-rational curve of degree >= 2.  ensures the derivative curve has degree p-1, n-1 control points,
     and evaluates to D C(u) (its own j-th derivative to D^(j+1) C(u)); the input curve is left unchanged."""
-    U, n, u, P, W, Pw, crv = _curve_setup(ctx, p, mult, False, normalized=normalized)
+    if unclamped01:
+        U, inner, n = shapes.make_kv(ctx, p, mult, clamped=False, normalized=False)
+        U[0], U[-1] = ctx.lit(0), ctx.lit(1)          # already normalised: the knot vector setter leaves it as it is
+        ctx.assume(ctx.lt(U[0], U[1]), ctx.lt(U[-2], U[-1]))
+        u = shapes.param_in(ctx, 'u', U[p], U[n])
+        P = shapes.net(ctx, 'P', n, 2)
+        W, Pw = None, shapes.homog(P, None)
+        crv = shapes.build_curve(ctx, p, U, P, None, normalize_kv=True)
+        _eq_vec(ctx, 'setup.kv_kept', crv.knotvector, U)
+    else:
+        U, n, u, P, W, Pw, crv = _curve_setup(ctx, p, mult, False, normalized=normalized)
     want = curve_oracle(ctx, p, U, Pw, u, False, p + 1)
     dcrv = ctx.geomdl('operations').derivative_curve(crv)
     ctx.check_true('degree', dcrv.degree == p - 1)
@@ -567,16 +579,29 @@ def _hodo_surface_shapes(tier):
         # an interior knot of full multiplicity (= degree, a C0 line) in either direction: still a valid surface
         b['c0'] = any(m == b['pu'] for m in b['mu']) or any(m == b['pv'] for m in b['mv'])
     out.append(dict(pu=2, pv=2, mu=[1], mv=[], c0=False, normalized=False))        # normalize_kv=False, symbolic ranges
+    out.append(dict(pu=2, pv=2, mu=[], mv=[1], c0=False, unclamped01=True))         # unclamped on [0, 1], default options
     return out
 
 
 @scenario('C02', fns=['operations.derivative_surface', 'helpers.surface_deriv_cpts', 'BSpline.Surface.evaluate_single',
                       'BSpline.Surface.ctrlpts2d'],
           quick=lambda: _hodo_surface_shapes('quick'), thorough=lambda: _hodo_surface_shapes('thorough'))
-def hodograph_surface(ctx, pu, pv, mu, mv, c0, normalized=True):
+def hodograph_surface(ctx, pu, pv, mu, mv, c0, normalized=True, unclamped01=False):
     """requires non-rational surface of degrees >= 2.  ensures the three derivative surfaces evaluate to
     D_u S, D_v S and D_u D_v S, with degrees and sizes reduced in the differentiated directions only."""
-    U, V, su, sv, u, v, P, W, Pw, srf = _surface_setup(ctx, pu, pv, mu, mv, False, normalized=normalized)
+    if unclamped01:
+        U, _iu, su = shapes.make_kv(ctx, pu, mu, prefix='a', clamped=False, normalized=False)
+        V, _iv, sv = shapes.make_kv(ctx, pv, mv, prefix='b', clamped=False, normalized=False)
+        for K in (U, V):
+            K[0], K[-1] = ctx.lit(0), ctx.lit(1)
+            ctx.assume(ctx.lt(K[0], K[1]), ctx.lt(K[-2], K[-1]))
+        u = shapes.param_in(ctx, 'u', U[pu], U[su])
+        v = shapes.param_in(ctx, 'v', V[pv], V[sv])
+        P = shapes.net(ctx, 'P', su * sv, 3)
+        W, Pw = None, shapes.homog(P, None)
+        srf = shapes.build_surface(ctx, pu, pv, U, V, P, su, sv, None, normalize_kv=True)
+    else:
+        U, V, su, sv, u, v, P, W, Pw, srf = _surface_setup(ctx, pu, pv, mu, mv, False, normalized=normalized)
     want = surface_oracle(ctx, pu, pv, U, V, Pw, su, sv, u, v, False, 2)
     s_u, s_v, s_uv = ctx.geomdl('operations').derivative_surface(srf)
     ctx.check_true('du.degrees', (s_u.degree_u, s_u.degree_v) == (pu - 1, pv))
